@@ -163,7 +163,8 @@ class LoggedNative(NativeRandomSource):
 def type_key(t) -> str:
     """Total, address-free key for a type expression."""
     if isinstance(t, type):
-        return f"{t.__module__}.{t.__qualname__}"
+        # (classes made by a factory share module and qualified name: the specification's own name tells them apart)
+        return f"{t.__module__}.{t.__qualname__}{t.__dict__.get('_sim_serial', '')}"
     if isinstance(t, str):
         return "printed:" + t  # dynamic SGE keys non-class symbols by their printed form
     origin = typing.get_origin(t)
